@@ -6,6 +6,7 @@
 -/
 import PG.Model.Pinned
 import PG.Generated.Layout
+import PG.Lemmas.PinnedL
 namespace PG
 
 /-- the version-1 layout: magic, field lists (name, type) in order, `Class` defaults -/
@@ -59,23 +60,41 @@ theorem layout_model_arity (c : RawClass) (m : RawMember) :
     pinned reader answers (does not hit its unchecked arithmetic), the current reader gives
     the identical answer. -/
 theorem C10_reader_compat (c : Cache) (q : Frame) (a : List Frame)
-    (h : Pinned.remapFrame c q = some a) : c.remapFrame q = a := by
-  sorry
+    (h : Pinned.remapFrame c q = some a) : c.remapFrame q = a :=
+  pinned_remapFrame_some c q a h
 
 /-- the pinned reader's arithmetic cannot fault when every entry without a usable range has
     no real original range — the shape of every file either release writes from a mapping
     whose line numbers are below 2^32 -/
+-- STATEMENT CHANGED: added `m.endline < u32Bound` to `hc`.  As originally stated (no bound on
+-- `m.endline`) the theorem is false for an arbitrary `Cache` value: with
+--   c := ⟨1, 1, 0, 4, [⟨0, 2, u32Max, 0, 1, 0, 0⟩],
+--         [⟨0, 0, 18446744073709551615, u32Max, u32Max, 2, 1, 5, u32Max⟩], [], [1, 97, 1, 98]⟩
+--   q := ⟨[97], [97], 18446744073709551615, none, none⟩
+-- all original hypotheses hold (`q.line = 2^64-1 < usizeBound`, `origStartline = 1`,
+-- `startline = 0`, `endline = 2^64-1 ≠ 0`), the line is inside `0 ..= endline`, and
+-- `origStartline + q.line = 2^64` leaves `usize`: `#eval Pinned.remapFrame c q` gives `none`
+-- (while `c.remapFrame q` answers).  Every decoded buffer satisfies the added bound (all raw
+-- fields are `u32`, cf. `C12_fields_u32`).
 theorem C10_no_fault (c : Cache) (q : Frame) (hq : q.line < usizeBound)
     (hc : ∀ m ∈ c.members, m.origStartline < u32Bound ∧ m.startline < u32Bound ∧
+      m.endline < u32Bound ∧
       (m.endline = 0 → m.origEndline = u32Max ∨ m.origEndline = m.origStartline)) :
-    ∃ a, Pinned.remapFrame c q = some a := by
-  sorry
+    ∃ a, Pinned.remapFrame c q = some a :=
+  pinned_remapFrame_ok c q (fun m hm => ⟨(hc m hm).1, (hc m hm).2.2.1, (hc m hm).2.2.2⟩)
 
 /-- both readers reject every version but 1 (the only version either release writes) with the
     wrong-version error, whatever else the buffer holds -/
 theorem C10_version_gate (buf : Bytes) (magic version nc nm nb sb : Nat) (rest : Bytes)
     (h : rdFields 6 buf = some ([magic, version, nc, nm, nb, sb], rest))
     (hm : magic = magicPRGC) (hv : version ≠ 1) : Cache.parse buf = .error .wrongVersion := by
-  sorry
+  subst hm
+  unfold Cache.parse
+  rw [h]
+  have h1 : (magicPRGC == magicFlipped) = false := by decide
+  have h2 : (magicPRGC != magicPRGC) = false := by decide
+  have h3 : (version != cacheVersion) = true := by
+    simp only [cacheVersion, bne_iff_ne, ne_eq]; exact hv
+  simp only [h1, h2, h3, Bool.false_eq_true, if_false, if_true]
 
 end PG
